@@ -316,10 +316,22 @@ REPLAY = ("cd <scratch dir containing c31_structs.py = STRUCT_SRC of props/C31/c
 
 
 def run(ctx):
-    tinfo = generate(ctx)
-    info = ctx.coq_props()
+    import os
+    try:
+        tinfo = generate(ctx)
+        info = ctx.coq_props()
+        tr_error = None
+    except vlib.TranslatorError as e:
+        # the tie is broken: no model for this source.  Still search the real code against the
+        # specification so that a property-breaking change is reported with a failing input.
+        tr_error = str(e)
+        tinfo = {"translator_error": tr_error}
+        info = {"ok": False, "obligations": 1, "discharged": 0, "failed": "translator: " + tr_error.split("\n")[0],
+                "log": tr_error, "theorems": [], "axioms": []}
     r = vlib.rng(ctx.seed, "C31")
     n_rt, n_tk, n_fn = (700, 500, 400) if ctx.quick else (7000, 5000, 4000)
+    scale = float(os.environ.get("C31_SCALE", "1"))      # development only
+    n_rt, n_tk, n_fn = int(n_rt * scale), int(n_tk * scale), int(n_fn * scale)
     cases = []
     for f in sorted((ctx.dir / "corpus").glob("*.json")):
         cases += json.loads(f.read_text())
@@ -353,10 +365,11 @@ def run(ctx):
                    found_input=False)
     # --- model side
     model = None
-    ctx.coq_make(["C31/Ser.vo", "C31/Spec.vo"])
+    if tr_error is None:
+        ctx.coq_make(["C31/Ser.vo", "C31/Spec.vo"])
     vo_ok = all((vlib.COQ / "C31" / f"{m}.vo").exists() and (vlib.COQ / "C31" / f"{m}.vo").stat().st_mtime
                 >= (vlib.COQ / "C31" / "GenPrinter.vo").stat().st_mtime for m in ("Model", "Ser", "Spec"))
-    if vo_ok:
+    if vo_ok and tr_error is None:
         chunks = [cases[i:i + 450] for i in range(0, len(cases), 450)]
         try:
             outs = ctx.coq_eval_many({f"cases{i}": coq_file(c) for i, c in enumerate(chunks)})
@@ -398,10 +411,14 @@ def run(ctx):
         if disagreements <= 3:
             ctx.report(key, "correspondence", what, detail)
 
+    per_kind = {}
+
     def specfail(key, what, detail):
         nonlocal spec_fail
         spec_fail += 1
-        if spec_fail <= 4:
+        k = key.split(":")[0]
+        per_kind[k] = per_kind.get(k, 0) + 1
+        if per_kind[k] <= 3:
             ctx.report(key, "counterexample", what, detail)
 
     for i, (c, x) in enumerate(zip(cases, res)):
@@ -450,6 +467,14 @@ def run(ctx):
                 elif mback != ser_ty(x["back"]):
                     disagree(f"parse:{x['str']}", "model parse vs type_from_ast", {"str": x["str"], "impl": x["back"], "impl_err": x["err"], "model": mback})
         else:
+            # model-independent search: fewer distinct variable-name tokens than distinct variables
+            dvars = _distinct_vars(c[1])
+            vtoks = {t for t in x["toks"] if _is_var_token(t)}
+            if len(vtoks) < len(dvars):
+                specfail(f"names:{x['str']}", "distinct_vars_distinct_names: fewer printed variable names than distinct variables",
+                         {"type": c[1], "printed": x["str"], "distinct_variables": sorted(map(str, dvars)),
+                          "variable_name_tokens": sorted(vtoks), "replay": REPLAY % ("fun", json.dumps(c[1]))})
+                continue
             if m is not None:
                 mt, mtags = m
                 if mt != x["toks"]:
@@ -531,3 +556,29 @@ def _vars(t):
     if k == "fun":
         return [(n, "param", i) for i, (n, _) in enumerate(t[1])] + [v for x in t[2] for v in _vars(x)] + _vars(t[4])
     return []
+
+
+def _distinct_vars(t, nparams=0):
+    """distinct variables of a rank-1 type: ('b', idx) / ('e', id); parameters count as ('b', position)"""
+    k = t[0]
+    if k == "bound":
+        return {("b", t[2])}
+    if k == "exist":
+        return {("e", t[2])}
+    if k == "tuple":
+        return set().union(*[_distinct_vars(x) for x in t[1]]) if t[1] else set()
+    if k == "app":
+        return set().union(*[_distinct_vars(x) for x in t[2]]) if t[2] else set()
+    if k == "fun":
+        out = {("b", i) for i, (n, pk) in enumerate(t[1]) if pk != "natc"}
+        for x in t[2] + [t[4]]:
+            out |= _distinct_vars(x)
+        return out
+    return set()
+
+
+_NONVAR = set(ENV) | {"int", "nat", "float", "tuple", "None", "forall", "True", "False"}
+
+
+def _is_var_token(tok):
+    return (tok[0] == "?" or tok[0].isalpha() or tok[0] == "_") and tok not in _NONVAR
